@@ -199,7 +199,8 @@ def one_core(prog, chk):
                 continue
             chk.anchor_missing("A1.one-core", f"{f} not found")
             continue
-        tg = sorted({x.path for x in (prog.bodies[t] for t in prog.edges.get(b.id, ())) if not x.path.startswith("<svgdx::TransformConfig") and not x.root})
+        helpers = {k for k in FRONTEND_MAY_CALL if not k.startswith("svgdx::transform_")}
+        tg = sorted({x.path for x in (prog.bodies[t] for t in prog.edges.get(b.id, ())) if x.path not in helpers and not x.root})
         chk.ob(tg == [must], "A1.one-core", f"{b.short}:core", b.where(), f"{b.short} delegates to {must} and to no other processing function", f"{b.short} calls {tg} (expected only {must})")
 
 
